@@ -14,7 +14,10 @@ RULE = ("wf cases: packages of 0-27 real CTransactions (count 24/25/26, total we
         "already in the mempool / present as a different-witness twin; single-transaction packages; ill-formed packages over valid "
         "transactions (unsorted, duplicate, twin duplicate, in-package conflict, not child-with-parents, grandparent, 26 members); random "
         "child-with-parents packages of 2-25 transactions with low-fee parents, missing inputs, parents spending parents, mempool "
-        "parents outside the package, over random mempool pre-states. non-trivial = at least two built transactions; distinct = distinct case lines")
+        "parents outside the package, over random mempool pre-states; replacement inside the call: a later parent double-spends the "
+        "confirmed input of a mempool ancestor of an earlier member (victim already in the mempool / accepted on its own earlier in the same "
+        "call; with a child in the mempool; two victims; both member orders), ordinary replacement by a package member or a single-transaction "
+        "package with fees at the PaysForRBF boundary -1/0 and far above, replacement spending what it evicts. non-trivial = at least two built transactions; distinct = distinct case lines")
 ASSUMPTIONS = ["txids/wtxids are abstracted to labels: distinct built transactions have distinct txids, a witness-only change keeps the txid "
                "(SHA256d collision freedom; the driver builds real transactions so the real hashes are what the C++ side compares)",
                "premise of the well-formedness theorems: package size fits unsigned int and each weight w satisfies 0 <= w and "
@@ -24,7 +27,8 @@ ASSUMPTIONS = ["txids/wtxids are abstracted to labels: distinct built transactio
                "a sub-package is submitted entirely or not at all; evicted sets are descendant-closed; inputs of an accepted transaction are "
                "mempool outputs or confirmed coins) - they are facts about PreChecks/SubmitPackage/TrimToSize (C22/C26/C28 territory), shown "
                "satisfiable together by C29_premises_satisfiable and exercised on the real code by the acc correspondence",
-               "acc scenarios: version-2 standard transactions with valid scripts, no double spends against the mempool (no RBF), default "
+               "acc scenarios: version-2 standard transactions with valid scripts; a mempool conflict is only met by a transaction evaluated "
+               "alone and replacing with a fee far above everything it evicts or of equal size (the feerate-diagram rule and package RBF are not modelled); default "
                "mempool size (LimitMempoolSize never evicts): there acceptance is decided by input availability and fee rate, which is what "
                "the scenario evaluator (toy_single/toy_multi) computes"]
 TRUSTED = ["Coq 8.16.1 kernel (coqc; vm_compute for the witness lemma)",
@@ -411,6 +415,58 @@ def gen_acc(rng, tier):
             if rng.random() < 0.5 and a.built[0][0] == "n" and a.built[0][2] and a.built[0][2][0][0] == "u":
                 a.pre = [0]
             cases.append(a.line())
+
+    # --- replacement by a package member (RBF inside AcceptPackage) -------------------------------------------
+    INCR = P["MPP_DEFAULT_INCREMENTAL_RELAY_FEE"]
+    BIG = 2000000
+    # a later parent replaces a mempool ancestor of an earlier package member: the earlier member (already in the
+    # mempool, or accepted on its own earlier in the same call) is evicted with it and its result must say so
+    for victim_in_pool in (True, False):
+        for order in ("ABC", "BAC"):
+            for extra in ("none", "b_own_coin", "a_has_child_in_pool", "second_victim"):
+                a = A(rng)
+                cm = a.coin()
+                m = a.new([cm], nout=2, fee=10000)
+                ta = a.new([("p", m, 0)], nout=2, fee=10000)
+                bins = [cm] + ([a.coin()] if extra == "b_own_coin" else [])
+                tb = a.new(bins, nout=2, fee=BIG)
+                a.pre = [m] + ([ta] if victim_in_pool else [])
+                if extra == "a_has_child_in_pool" and victim_in_pool:
+                    a.pre.append(a.new([("p", ta, 1)], nout=1, fee=10000))
+                pars = [ta, tb]
+                if extra == "second_victim":
+                    t2 = a.new([("p", m, 1)], nout=2, fee=10000); pars = [ta, t2, tb]
+                    if victim_in_pool: a.pre.append(t2)
+                tc = a.new([("p", q, 0) for q in pars], nout=1, fee=10000)
+                if order == "BAC": pars = [tb] + [q for q in pars if q != tb]
+                a.pkg = pars + [tc]
+                cases.append(a.line())
+    # ordinary replacement by a package member / by a single-transaction package, PaysForRBF boundaries (victim and
+    # replacement have the same size, so the feerate diagram improves whenever the fee rules pass)
+    for shape in ("single", "parent_of_child", "victim_with_descendant", "spends_conflict"):
+        for fee_class in ("big", "pays", "pays-1", "below"):
+            if shape != "single" and fee_class in ("pays-1", "below"):
+                continue                  # a reconsiderable failure inside a multi-transaction package leads to package RBF (not modelled)
+            a = A(rng)
+            cx = a.coin()
+            x = a.new([cx], nout=2, fee=10000)
+            a.pre = [x]
+            old = 10000
+            if shape == "victim_with_descendant":
+                d = a.new([("p", x, 0)], nout=1, fee=7000); a.pre.append(d); old += 7000
+            rins = [cx] + ([("p", x, 1)] if shape == "spends_conflict" else [])
+            r = a.new(rins, nout=2, fee=0)
+            need = old + fee_for(INCR, a.vsize(r))
+            a.built[r][4] = {"big": BIG, "pays": need, "pays-1": need - 1, "below": old - 1}[fee_class]
+            if shape in ("victim_with_descendant", "spends_conflict") and fee_class == "pays":
+                a.built[r][4] = BIG       # keep clear of the diagram rule when sizes differ
+            if shape == "parent_of_child":
+                c = a.new([("p", r, 0)], nout=1, fee=10000); a.pkg = [r, c]
+            elif shape == "single" or shape == "victim_with_descendant" or shape == "spends_conflict":
+                a.pkg = [r]
+                if shape != "single":
+                    c = a.new([("p", r, 0)], nout=1, fee=10000); a.pkg = [r, c]
+            cases.append(a.line())
     # random child-with-parents packages over random mempool pre-states
     nrand = 700 if tier == "quick" else 20000
     for _ in range(nrand):
@@ -421,9 +477,15 @@ def gen_acc(rng, tier):
         for _ in range(rng.choice([0, 0, 1, 2])):
             outside.append(a.new([a.coin()], nout=2, fee=10000))
         pars = []
+        out_coin = {}
         for k in range(npar):
             ins = []
             r = rng.random()
+            if outside and k > 0 and rng.random() < 0.12:
+                # replaces an outside mempool transaction (and whatever descends from it, earlier parents included)
+                o = rng.choice(outside)
+                ins = [a.built[o][2][0]]
+                pars.append(a.new(ins, nout=2, fee=2000000, wit=1)); continue
             if r < 0.08: ins.append(("x", rng.randrange(0, 5)))
             elif r < 0.25 and outside: ins.append(("p", rng.choice(outside), rng.choice([0, 1, 1])))
             else: ins.append(a.coin())
